@@ -114,7 +114,30 @@ def true_product(pcfg, pt_item):
     return p
 
 
-def prob_ok(pcfg, pt_item, exact):
+def file_disagreements(path, pcfg, folder='Grammar'):
+    """(type, group index) pairs whose values do not all carry, in the terminal file as the harness's neutral reader sees
+    it, the probability the loaded group carries - the product the tool reports would then not be the ruleset's"""
+    from . import expand as _expand
+    bad = set()
+    recs_of = _expand.file_prob_ranks(path, pcfg)
+    for t, groups in pcfg.grammar.items():
+        if t[0] in 'EW' or not groups:
+            continue
+        recs = recs_of(t)
+        if not recs:
+            continue      # synthesised group (--all_lower masks)
+        off = 0
+        for gi, g in enumerate(groups):
+            mine = recs[off:off + len(g['values'])]
+            off += len(g['values'])
+            if [v for v, _ in mine] != list(g['values']) or any(p != g['prob'] for _, p in mine):
+                bad.add((t, gi))
+    return bad
+
+
+def prob_ok(pcfg, pt_item, exact, bad_groups=()):
+    if bad_groups and any((t, i) in bad_groups for t, i in pt_item['pt']):
+        return False
     ref = true_product(pcfg, pt_item)
     got = pt_item['prob']
     if exact:
@@ -171,7 +194,7 @@ def run_history(pcfg, cuts, exact=True, with_queue=True, max_pops=None):
     return {'sessions': sessions, 'exhausted': exhausted}
 
 
-def to_traces(tid, pcfg, hist, mode, exact=True, int_grammar=None, ev2=None, meta=None):
+def to_traces(tid, pcfg, hist, mode, exact=True, int_grammar=None, ev2=None, meta=None, bad_groups=()):
     """-> (P-layer trace dict, I-layer trace dict or None)"""
     namer = NodeNamer(pcfg)
     # dense ranks of every float that is compared
@@ -191,7 +214,7 @@ def to_traces(tid, pcfg, hist, mode, exact=True, int_grammar=None, ev2=None, met
         names = namer.name_all([it for it, _ in s['ev']], used)
         evs = []
         for (it, qi), nm in zip(s['ev'], names):
-            evs.append({'s': nm[0], 'n': nm[1], 'r': rank[it['prob']], 'ok': bool(prob_ok(pcfg, it, exact))})
+            evs.append({'s': nm[0], 'n': nm[1], 'r': rank[it['prob']], 'ok': bool(prob_ok(pcfg, it, exact, bad_groups))})
         sess_out.append({'saved': INF if s['saved'] is None else rank[s['saved']], 'ev': evs})
     p = {'tid': tid, 'mode': mode, 'sizes': sizes_of(pcfg), 'sess': sess_out,
          'exhausted': bool(hist['exhausted']), 'ev2': ev2 if ev2 is not None else sess_out[0]['ev']}
